@@ -263,3 +263,30 @@ def demote_fresh_scenario(cl, nport, pref_ref, pref_role):
     return {"diffs": diffs, "admin": admin, "ref": out_ref, "role": out_role, "script": role, "info": info_role, "info_ref": info_ref,
             "unanswered": monitor.unanswered(info_role, out_role), "echo": monitor.echo_issues(info_role, out_role),
             "echo_ref": monitor.echo_issues(info_ref, out_ref)}
+
+
+# ------------------------------------------------------------------------------------------------ probe answered from a stale copy
+def stale_probe(cl, pref_a, pref_b):
+    """hold (persisted at once, so the follower has it), then UNLOCK and a concurrent-check probe (flag 0x08, timeout 0)
+    written back to back on one binary connection.  Leader: the probe runs after the UNLOCK and is granted.  Follower:
+    the UNLOCK is forwarded, the probe is answered by LockDB.CheckProbableLock from the follower's own copy, which still
+    shows the hold."""
+    def script(prefix):
+        S = [blk(0, "lock", prefix, 1, "sp", "sph", eflag=gen.ZERO_AOF),
+             {"c": -1, "op": "sleep", "ms": 500},
+             blk(0, "unlock", prefix, 2, "sp", "sph", wait="none"),
+             blk(0, "lock", prefix, 3, "sp", "spp", flag=gen.F_PROBE, wait="none"),
+             {"c": 0, "op": "sync"},
+             {"c": -1, "op": "sleep", "ms": 300},
+             blk(0, "unlock", prefix, 4, "sp", "spp")]
+        return {"id": "stale-probe@" + prefix, "conns": [{"kind": "bin"}], "steps": S, "drain_ms": 300}
+    a, b = script(pref_a), script(pref_b)
+    ha, hb = cl.run_plan(cl.lport, [a]), cl.run_plan(cl.fport, [b])
+    oa, ob = cl.collect(ha)[a["id"]], cl.collect(hb)[b["id"]]
+    ra, rb = oa["steps"][3].get("reply") or {}, ob["steps"][3].get("reply") or {}
+    time.sleep(0.1)
+    forwarded = any(f.get("dir") == "req" and f.get("rid") == b["steps"][3]["rid"] for f in cl.link_frames())
+    return {"leader_probe_result": ra.get("result"), "follower_probe_result": rb.get("result"), "follower_probe_lcount": rb.get("lcount"),
+            "probe_forwarded": forwarded, "leader_unlock": (oa["steps"][2].get("reply") or {}).get("result"),
+            "follower_unlock": (ob["steps"][2].get("reply") or {}).get("result"), "script": b,
+            "replies_leader": [s.get("reply") for s in oa["steps"]], "replies_follower": [s.get("reply") for s in ob["steps"]]}
